@@ -7,7 +7,7 @@ from scipy.spatial.transform import Rotation as R
 
 
 def is_num(x):
-    return isinstance(x, (int, float, np.integer, np.floating)) and not isinstance(x, str) and np.isfinite(x)
+    return isinstance(x, (int, float, np.integer, np.floating)) and not isinstance(x, (str, bytes, np.ndarray)) and np.isfinite(x)
 
 
 def shape_of(v):
@@ -98,7 +98,8 @@ def grammar(rng, nps):
     vals += [nps.uniform(-1, 1, (2, 2, 3)), nps.uniform(-1, 1, (2, 2, 3)).tolist(), [[1, 2, 3], [1, 2]], [1, "x", 3], [[1, 2, 3], "row"],
              [0.5, 1.0, 1.0, 0, 90], [1.0, 0.5, 1.0, 0, 90], [0.5, 1.0, 1.0, 90, 0], [0.5, 1.0, 1.0, 0, 400], [0.5, 1.0, -1.0, 0, 90],
              [-0.5, 1.0, 1.0, 0, 90], [0.0, 1.0, 1.0, -30, 330], [0.5, 1.0, 0.0, 0, 90], np.array([1, 2, 3]), np.array([1, 2, 3], dtype=int),
-             np.zeros((0, 3)), np.float64(2.0), np.int64(3), "right", "left", "up"]
+             np.zeros((0, 3)), np.float64(2.0), np.int64(3), "right", "left", "up",
+             "3", "1e3", " 2.5 ", "inf", "nan", b"4", np.array(2.0), np.array([2.0]), [2.0], (1.5,)]
     rng.shuffle(vals)
     return vals
 
@@ -156,7 +157,7 @@ def sweep(ctx, n_rounds):
             nps = np.random.default_rng(rng.randrange(2**31))
             vals = grammar(rng, nps)
             for ctor, kw, attr, doc in attributes():
-                for v in vals[: 60]:
+                for v in vals[: 75]:
                     name = f"{ctor.__name__}.{attr}"
                     vrepr = repr(v)[:80]
                     try:
